@@ -1357,7 +1357,8 @@ func (sa *Application) tryPlaceholderAllocate(nodeIterator func() NodeIterator, 
 	// we checked all placeholders and asks nothing worked as yet
 	// pick the first fit and try all nodes if that fails give up
 	var allocResult *AllocationResult
-	if phFit != nil && reqFit != nil {
+	// the placeholder could have been released in the loop above: a later ask of the task group was larger
+	if phFit != nil && reqFit != nil && !phFit.IsReleased() {
 		resKey := reqFit.GetAllocationKey()
 		iterator.ForEachNode(func(node *Node) bool {
 			if !node.IsSchedulable() {
